@@ -257,7 +257,15 @@ def oracleAcc (st : St) (ws : List String) (out : String) : Option String :=
     let name := ws.getD 0 ""
     match okPayload out with
     | some p =>
-      if name = "container_len" ∨ name = "total_len" then
+      if name = "fmt_stack" then
+        -- `Display` / `Debug` recurse once per nesting level: the stack they need on a message-sized input must
+        -- fit a small task stack (64 KiB is already generous for the embedded targets of rs-matter)
+        match p.toNat? with
+        | some n => if bs.length ≤ 1280 ∧ n > 65536 then
+              some s!"formatting (Display / Debug) an element of {bs.length} bytes took {n} bytes of stack: one recursion level per nesting level, a stack overflow (abort) on a smaller stack"
+            else none
+        | none => none
+      else if name = "container_len" ∨ name = "total_len" then
         match p.toNat? with
         | some n => if n ≤ bs.length then none else some s!"reported element length {n} exceeds the input length {bs.length}"
         | none => none
